@@ -8,6 +8,6 @@ G3u == <<"a", "b_u", "c">>            \* an included contig whose name contains 
 G3p == <<"chr1", "chr11", "chr2">>      \* one name is a prefix of another
 Emit == status \in {"error", "completed"} =>
           PrintT(ToJson([genome |-> Genome, groups |-> groups, consumer |-> consumer, mech |-> Mechanism,
-                         status |-> status, out |-> out, pulls |-> pulls,
+                         status |-> status, out |-> out, pulls |-> pulls, derived |-> (derived # {}),
                          compatible |-> Compatible(groups), slots |-> Slots(groups)]))
 ==============================================================================
